@@ -66,6 +66,7 @@ type Result struct {
 	StateSig      []uint64       // global state hash after every visible step
 	MaxEnabled    int            // max number of simultaneously enabled threads seen
 	DefaultsTaken map[string]int // select sites that took their default branch
+	Marks         map[string]int // harness marks: number of choice points made when vs.Mark(name) was first called
 }
 
 // TimerFirstTaken reports whether the execution contains a "timer lands first" deviation: virtual time
@@ -126,6 +127,7 @@ type timer struct {
 }
 
 type sched struct {
+	marks    map[string]int
 	threads  []*thread
 	cur      *thread
 	prefix   []int
@@ -198,7 +200,7 @@ func Run(cfg Config, main func()) Result {
 	<-sc.finished
 	sc.wg.Wait()
 	s = nil
-	return Result{Points: sc.points, Outcome: sc.outcome, Panic: sc.panicked, Races: sc.races, Blocked: sc.blocked, Steps: sc.steps, Now: sc.now, Log: sc.log, StateSig: sc.sigs, MaxEnabled: sc.maxEn, DefaultsTaken: sc.defaults}
+	return Result{Points: sc.points, Outcome: sc.outcome, Panic: sc.panicked, Races: sc.races, Blocked: sc.blocked, Steps: sc.steps, Now: sc.now, Log: sc.log, StateSig: sc.sigs, MaxEnabled: sc.maxEn, DefaultsTaken: sc.defaults, Marks: sc.marks}
 }
 
 func (sc *sched) newThread(name string, required bool) *thread {
@@ -658,6 +660,20 @@ func WaitQuiescent() {
 		}
 		return true
 	}})
+}
+
+// Mark records how many choice points had been made when the harness first reached the named place
+// (Explorer.FromMark restricts deviations to the part of the execution after it).
+func Mark(name string) {
+	if s == nil {
+		return
+	}
+	if s.marks == nil {
+		s.marks = map[string]int{}
+	}
+	if _, ok := s.marks[name]; !ok {
+		s.marks[name] = len(s.points)
+	}
 }
 
 // Logf records a harness observation.
